@@ -9,6 +9,10 @@ NAMES = ["a", "b", "c"]
 BOXNAMES = ["f", "g", "h", "k"]
 
 
+def _o(x):
+    return list(x) if isinstance(x, (list, tuple)) else x
+
+
 def obj(cls, names=NAMES, zmax=1):
     if cls == "rigid":
         return st.tuples(st.sampled_from(names),
@@ -17,6 +21,9 @@ def obj(cls, names=NAMES, zmax=1):
 
 
 def types(cls, min_len=0, max_len=3, names=NAMES, zmax=1):
+    if cls == "biclosed":
+        from harness import xspec
+        return xspec.bi_types(max_len, min_len=min_len)
     return st.lists(obj(cls, names, zmax), min_size=min_len, max_size=max_len)
 
 
@@ -142,7 +149,7 @@ def diagrams(draw, cls="monoidal", max_boxes=6, max_width=5, dom=None,
         dom = draw(types(cls, 1 if one else 0,
                          1 if one else min(max_dom, max_width), names, zmax))
     pool = [] if pool is None else pool
-    scan = [list(x) for x in dom]
+    scan = [_o(x) for x in dom]
     layers = []
     n = draw(st.integers(min_boxes, max_boxes))
     for i in range(n):
@@ -159,26 +166,40 @@ def diagrams(draw, cls="monoidal", max_boxes=6, max_width=5, dom=None,
         from harness.specs import bdom, bcod
         layers.append([b, off])
         scan = scan[:off] + bcod(b) + scan[off + len(bdom(b)):]
-    return {"cls": cls, "dom": [list(x) for x in dom], "layers": layers}
+    return {"cls": cls, "dom": [_o(x) for x in dom], "layers": layers}
 
 
 @st.composite
 def closing(draw, cls, scan, cod, names=NAMES):
-    """ One box from `scan` to `cod` (used to force a codomain). """
-    return [{"k": "box", "name": draw(st.sampled_from(BOXNAMES)),
-             "dom": [list(x) for x in scan], "cod": [list(x) for x in cod],
-             "dag": False}, 0]
+    """ Layers from `scan` to `cod` (used to force a codomain). """
+    scan, cod = [_o(x) for x in scan], [_o(x) for x in cod]
+    if cls == "circuit":
+        layers = [[{"k": "g", "g": "Discard", "a": [t]}, 0] for t, _ in scan]
+        for i, (t, _) in enumerate(cod):
+            layers.append([{"k": "g", "g": "Ket" if t == "qubit" else "Bits",
+                            "a": [0]}, i])
+        return layers
+    if cls == "zx":
+        return [[{"k": "zx", "g": "Z", "n": [len(scan), len(cod)], "ph": 0},
+                 0]]
+    if cls == "cartesian":
+        return [[{"k": "fn", "name": "close", "n": [len(scan), len(cod)]}, 0]]
+    if cls == "biclosed":
+        return [[{"k": "box", "name": "close", "dom": scan, "cod": cod,
+                  "dag": False}, 0]]
+    return [[{"k": "box", "name": draw(st.sampled_from(BOXNAMES)),
+              "dom": scan, "cod": cod, "dag": False}, 0]]
 
 
 @st.composite
 def diagrams_to(draw, cls, dom, cod, **kwargs):
     """ Diagram dom -> cod: a random diagram from dom, then, if needed,
-    one closing box. """
+    closing layers. """
     from harness.specs import spec_cod
     spec = draw(diagrams(cls, dom=dom, **kwargs))
     end = spec_cod(spec)
-    if end != [list(x) for x in cod]:
-        spec["layers"].append(draw(closing(cls, end, cod)))
+    if end != [_o(x) for x in cod]:
+        spec["layers"] += draw(closing(cls, end, cod))
     return spec
 
 
@@ -208,8 +229,8 @@ def interpretations(draw, spec_list, max_dim=3, wide_dim=2, budget=60000):
             size *= dims[n]
         vals = draw(st.lists(st.integers(-2, 2), min_size=2 * size,
                              max_size=2 * size))
-        ar.append({"name": name, "dom": [list(x) for x in dom],
-                   "cod": [list(x) for x in cod], "vals": vals})
+        ar.append({"name": name, "dom": [_o(x) for x in dom],
+                   "cod": [_o(x) for x in cod], "vals": vals})
     return {"dims": dims, "ar": ar}
 
 
